@@ -4,6 +4,7 @@ import itertools
 from harness.impl_aggregates import impl_agg_op, enc_children, enc_blocks
 
 WARM_TWINS = {"quick": 0.02, "thorough": 0.05}      # engine: call-history twins (harness/warm.py)
+DECOY_TWINS = {"quick": 0.02, "thorough": 0.05}     # engine: decoy twins (harness/decoy.py)
 ID = "C20"
 LEAN_MODULE = "BioCantor.Props.C20"
 DESIGN_REF = "4/C20"
